@@ -11,6 +11,7 @@ import (
 	"os"
 	"os/exec"
 	"path/filepath"
+	"strconv"
 	"strings"
 	"syscall"
 	"time"
@@ -220,17 +221,72 @@ func (w *World) leaseFiles() []string {
 // LeaseLeft reports whether a lease file exists.
 func (w *World) LeaseLeft() bool { return len(w.leaseFiles()) > 0 }
 
-// HoldLease makes every left-over lease valid far into the future ("the clock has not reached the expiry").
+// leaseExpiry returns the latest expiry instant (unix seconds, rounded up) stamped in a left-over lease.
+func (w *World) leaseExpiry() int64 {
+	var exp int64
+	for _, f := range w.leaseFiles() {
+		b, err := os.ReadFile(f)
+		if err != nil {
+			simkit.Harnessf("read lease: %v", err)
+		}
+		ns, err := strconv.ParseInt(strings.TrimSpace(string(b)), 10, 64)
+		if err != nil {
+			simkit.Harnessf("lease stamp %q: %v", b, err)
+		}
+		if s := (ns + 999999999) / 1000000000; s > exp {
+			exp = s
+		}
+	}
+	return exp
+}
+
+// HoldLease makes every left-over lease valid at the next invocation: either the lease is as its
+// dead holder left it and the simulated clock has not reached its expiry, or its stamp is far in
+// the future.
 func (w *World) HoldLease() {
+	if w.Clock == 0 {
+		w.Clock = SimEpoch
+	}
+	if exp := w.leaseExpiry(); exp > w.Clock+1 && exp-w.Clock < 3600 && w.R.T.Chance("lease-held-by-the-clock", 1, 2) {
+		w.R.Probe("lease-held-by-the-clock")
+		return
+	}
 	for _, f := range w.leaseFiles() {
 		os.WriteFile(f, []byte("9000000000000000000"), 0o644)
 	}
 }
 
-// ExpireLease makes every left-over lease expired ("the clock jumped past the expiry").
+// ExpireLease makes every left-over lease expired at the next invocation: the simulated clock
+// jumps to the expiry (the next invocation runs one second past it) or an hour past it, or the
+// stamp is rewritten to the distant past.
 func (w *World) ExpireLease() {
-	for _, f := range w.leaseFiles() {
-		os.WriteFile(f, []byte("1"), 0o644)
+	if w.Clock == 0 {
+		w.Clock = SimEpoch
+	}
+	exp := w.leaseExpiry()
+	if exp == 0 {
+		return
+	}
+	kind := w.R.T.Draw("lease-expiry-kind", 3)
+	if exp-w.Clock >= 3600 {
+		kind = 0 // a stamp an adversary wrote: no clock jump reaches it
+	}
+	switch kind {
+	case 1:
+		if exp > w.Clock {
+			w.Clock = exp
+		}
+		w.R.Probe("lease-expired-by-the-clock/just-past")
+	case 2:
+		if exp+3600 > w.Clock {
+			w.Clock = exp + 3600
+		}
+		w.R.Probe("lease-expired-by-the-clock/an-hour-past")
+	default:
+		for _, f := range w.leaseFiles() {
+			os.WriteFile(f, []byte("1"), 0o644)
+		}
+		w.R.Probe("lease-expired-by-stamp")
 	}
 }
 
